@@ -244,6 +244,18 @@ def r_div(A, ctx, scope, rule="R-DIV", where=None):
             if f.name == "spectral_norm" and "eigenvector" in dtxt:
                 ctx.ob(rule, key, True, detail="exempt: " + DIV_EXEMPT["spectral_norm:start"])
                 continue
+            compiled = f.njit or (f.cls is not None and (f.cls in A.prog.penalties or f.cls in A.prog.datafits)) \
+                or any(k.njit for k in [f.outer] if k is not None)
+            if not compiled:
+                # interpreter level: only Python floats raise (results of jitclass slot
+                # calls); numpy scalars/arrays give inf with a warning
+                roles = set()
+                for nm in names_in(D):
+                    roles |= flow.env[f].get(nm, set())
+                if not roles & {"LIP", "GLIP"}:
+                    ctx.ob(rule, key, True, detail="numpy-level division (inf, no exception); "
+                           "NaN propagation not decided")
+                    continue
             if _mask_guard(f, D):
                 ctx.ob(rule, key, True, detail="guard: boolean mask `!= 0` selects the entries")
                 continue
